@@ -87,12 +87,11 @@ Section Morph.
   Qed.
 
   Theorem trim_collinear_map p is_open :
-    g_trim_collinear eqb2 coll2 (map f p) is_open = rmap (map f) (g_trim_collinear eqb1 coll1 p is_open).
+    g_trim_collinear coll2 (map f p) is_open = rmap (map f) (g_trim_collinear coll1 p is_open).
   Proof.
     unfold g_trim_collinear. rewrite map_length.
     destruct (length p <? 3).
-    - destruct (negb is_open || (length p <? 2)); [reflexivity|].
-      mstep. mstep. rewrite Heq. match goal with |- context [eqb1 ?a ?b] => destruct (eqb1 a b) end; reflexivity.
+    - destruct (negb is_open || (length p <? 2)); reflexivity.
     - assert (Hss : forall (k1 : nat * nat -> res (list Q)) (k2 : nat * nat -> res (list P)),
                  (forall ss, k1 ss = rmap (map f) (k2 ss)) ->
                  bind (if negb is_open
@@ -212,7 +211,7 @@ Proof. reflexivity. Qed.
 
 Theorem trim_collinear_erase p is_open :
   trim_collinear2 (map erase p) is_open = rmap (map erase) (trim_collinear_z p is_open).
-Proof. apply (trim_collinear_map erase point_eqb3 pt_eqb is_collinear3 is_collinear eqb3_erase coll3_erase). Qed.
+Proof. apply (trim_collinear_map erase is_collinear3 is_collinear coll3_erase). Qed.
 
 Theorem strip_duplicates_erase p closed :
   strip_duplicates2 (map erase p) closed = rmap (map erase) (strip_duplicates_z p closed).
